@@ -23,12 +23,67 @@ SRCS = {
     'calls': 'x = f(f(f(a)), f(b, c))  # cx\ny = [f(d), g(f(e))]\n\n# lead\nz = f(\n    h  # inner\n)\n',
     'names': 'a = a + f(a, k=a)  # c1\ndef g(a, b=a):\n    return [a for a in b if a]  # c2\n',
     'lists': 'v = [1, [2, 3], []] + [4]  # cv\nw = [[5, [6]], 7]\n',
+    'nestlists': 'f([[a]], [[[[b]]]], [c])  # cf\ng([[[d]]])\n',
     'binops': 'r = (a + b) * c - d  # cr\ns = f(a + b,\n      c ** 2)\n',
 }
 
 
 def _is_f_call1(n):
     return isinstance(n, ast.Call) and isinstance(n.func, ast.Name) and n.func.id == 'f' and len(n.args) == 1 and not n.keywords and not isinstance(n.args[0], ast.Starred)
+
+
+def _ref_loop(tree, loop):
+    """reference for pattern MList(elts=[M(x=...)]) / template '__FST_x' with a loop budget per matched location (0 = until it no longer matches)"""
+    n = {'uniq': 0, 'tot': 0}
+
+    def unwrap(node):
+        it = 0
+        hit = False
+        while isinstance(node, ast.List) and len(node.elts) == 1 and not isinstance(node.elts[0], ast.Starred) and (loop <= 0 or it < loop):
+            node = node.elts[0]
+            it += 1
+            hit = True
+        if hit:
+            n['uniq'] += 1
+            n['tot'] += it
+        return node, hit
+
+    def visit(node):
+        new, hit = unwrap(node)
+        if hit:
+            return new              # nested=False: what comes out of a substituted location is not searched again
+        for name, val in ast.iter_fields(new):
+            if isinstance(val, list):
+                for i, v in enumerate(val):
+                    if isinstance(v, ast.AST):
+                        val[i] = visit(v)
+            elif isinstance(val, ast.AST):
+                setattr(new, name, visit(val))
+        return new
+    visit(tree)
+    return n['uniq'], n['tot']
+
+
+def p1_loop(loop: int):
+    assume(0 <= loop <= 6)
+    lp = pc.pin(loop, 0, 6)
+    src = SRCS['nestlists']
+    with pc.untraced():
+        root = FST(src, 'exec')
+        pc.reset_globals()
+        ref = ast.parse(src)
+        ru, rt = _ref_loop(ref, lp)
+        exp = ast.dump(ref)
+    try:
+        with FST.options(**pc.OPTS):
+            _r, nu, nt = root.subn(MList(elts=[M(x=...)]), '__FST_x', loop=(True if lp == 0 else lp))
+    except pc.EXPECTED_RAISES as ex:
+        fail('sub.loop.raised', (lp, type(ex).__name__, str(ex)[:200]))
+    with pc.untraced():
+        t = pc.o_parse(root, 'sub.loop')
+        check(ast.dump(t) == exp, 'sub.loop.result_differs_from_reference', (lp, pc.R(root.src), pc._first_diff(exp, ast.dump(t))))
+        check((pc.R(nu), pc.R(nt)) == (ru, rt), 'sub.loop.reported_counts_differ', (lp, (pc.R(nu), pc.R(nt)), (ru, rt)))
+    cover('ok')
 
 
 ROWS = {
@@ -129,3 +184,5 @@ for _k, _rows in (('calls', ('call_wrap', 'identity_binop')), ('names', ('name_a
         CELLS.append(Cell(f'P1.sub[{_k},{_r}]', _mk(_k, _r), 'P', FNU,
                           f'carrier {_k}; pattern/template row {_r} ({ROWS[_r][1]!r}); count symbolic in -2..12, nested and on=leave booleans',
                           tier='quick', budget=900, per_path=120, out='rows/carriers outside the table; loop, callbacks, scope/back settings', reset=pc.reset_globals))
+CELLS.append(Cell('P1.sub_loop[nestlists]', p1_loop, 'P', FNU, 'pattern [x] -> x with loop budget symbolic in 0..6 (0 = unbounded) on a carrier with several nested single-element lists of different depths; reference = per-location unwrapping',
+                  tier='quick', budget=600, per_path=120, reset=pc.reset_globals))
